@@ -74,6 +74,11 @@ NOT_ALL_TYPES = ("UnaryOp(op=Not(), operand=Call(func=Name(id='all', ctx=Load())
                  "ctx=Load())], keywords=[])], ctx=Load()), ifs=[], is_async=0)])], keywords=[]))")
 
 
+WANT = {('CoordCart', '__init__'), ('CoordCart', 'geo'), ('CoordCart', 'tm'),
+        ('CoordGeo', '__init__'), ('CoordGeo', 'notation'), ('CoordGeo', 'cart'), ('CoordGeo', 'tm'),
+        ('CoordTM', '__init__'), ('CoordTM', 'geo'), ('CoordTM', 'cart')}
+
+
 def strip_doc(body):
     return [s for s in body if not (isinstance(s, ast.Expr) and isinstance(s.value, ast.Constant))]
 
@@ -147,13 +152,16 @@ class Tr:
                     self.err(m, f'{c.name}: class-level statement {type(m).__name__} (class attributes are not modelled)')
                 if m.name in SKIP_METHODS:
                     continue
+                if (c.name, m.name) not in WANT:
+                    # a method the model does not know (nothing modelled can call it: a call of an unknown method is
+                    # rejected where it occurs): left out
+                    self.dropped.append(f'method {c.name}.{m.name} (not one of the modelled methods)')
+                    continue
                 if m.decorator_list:
                     self.err(m, f'{c.name}.{m.name}: decorated method')
                 self.signature(c.name, m)
                 todo.append((c.name, m))
-        want = {('CoordCart', '__init__'), ('CoordCart', 'geo'), ('CoordCart', 'tm'),
-                ('CoordGeo', '__init__'), ('CoordGeo', 'notation'), ('CoordGeo', 'cart'), ('CoordGeo', 'tm'),
-                ('CoordTM', '__init__'), ('CoordTM', 'geo'), ('CoordTM', 'cart')}
+        want = WANT
         have = {(c, m.name) for c, m in todo}
         if have != want:
             self.err(self.tree, f'methods differ from the modelled set: missing {sorted(want - have)}, extra {sorted(have - want)}')
@@ -687,6 +695,9 @@ def main():
         txt = Tr(os.path.join(a.repo, 'geodepy', 'coord.py')).run()
     except (TranslateError, SyntaxError, OSError) as e:
         print(f'TRANSLATE-ERROR {e}')
+        sys.exit(3)
+    except Exception as e:      # noqa  (a construct the translator did not anticipate is a translation failure, not a crash)
+        print(f'TRANSLATE-ERROR unexpected {type(e).__name__}: {e}')
         sys.exit(3)
     old = open(a.out).read() if os.path.exists(a.out) else None
     if old != txt:
